@@ -63,6 +63,7 @@ type ParserModel struct {
 }
 
 type pmCtx struct {
+	foldKey bool // compare parameter names in error texts case-insensitively (canonical header keys)
 	p       *Program
 	info    *types.Info
 	fd      *ast.FuncDecl
@@ -263,12 +264,20 @@ func (c *pmCtx) isReject(list []ast.Stmt) bool {
 
 // errNames: the error expression identifies parameter k.
 func (c *pmCtx) errNames(e ast.Expr, k string) bool {
+	same := func(a, b string) bool { return a == b }
+	contains := strings.Contains
+	if c.foldKey {
+		// a header looked up under its canonical key: the error may name the header in the spelling of the
+		// spec (header names are case-insensitive)
+		same = strings.EqualFold
+		contains = func(s, sub string) bool { return strings.Contains(strings.ToLower(s), strings.ToLower(sub)) }
+	}
 	switch x := ast.Unparen(e).(type) {
 	case *ast.CompositeLit:
 		for _, el := range x.Elts {
 			if kv, ok := el.(*ast.KeyValueExpr); ok {
 				if id, ok := kv.Key.(*ast.Ident); ok && id.Name == "Parameter" {
-					if s, ok := c.constStr(kv.Value); ok && s == k {
+					if s, ok := c.constStr(kv.Value); ok && same(s, k) {
 						return true
 					}
 				}
@@ -277,11 +286,11 @@ func (c *pmCtx) errNames(e ast.Expr, k string) bool {
 	case *ast.CallExpr:
 		nm := calleeName(c.info, x)
 		if (nm == "fmt.Errorf" || nm == "errors.New") && len(x.Args) > 0 {
-			if s, ok := c.constStr(x.Args[0]); ok && strings.Contains(s, k) {
+			if s, ok := c.constStr(x.Args[0]); ok && contains(s, k) {
 				return true
 			}
 			for _, a := range x.Args[1:] {
-				if s, ok := c.constStr(a); ok && s == k {
+				if s, ok := c.constStr(a); ok && same(s, k) {
 					return true
 				}
 			}
